@@ -217,19 +217,68 @@ Theorem C20_server_add_exact : forall H is_stun s id m s' ok,
 Proof. exact server_add_exact. Qed.
 Print Assumptions C20_server_add_exact.
 
-(* Last sentence, for ServerPuncher.Respond (respond_trace = addAttempt id; anything; the deferred
-   removeAttempt id), from any state and whatever happens in between: the run never fails; once
-   Respond has returned, id is in neither registry, a datagram that decodes under no other
-   registered attempt (a late or retransmitted punch packet of the finished attempt) is handed to
-   the reader unchanged and changes nothing, and the same id can be registered again. *)
-Theorem C20_server_respond_done : forall H is_stun, (forall x, H x <> []) ->
-  forall s0 id m mid, keys_nodup (d_reg (s_conn s0)) ->
-  exists s outs, srun H is_stun s0 (respond_trace id m mid) = Ok (s, outs) /\
-    att_find id (s_att s) = None /\ reg_find id (d_reg (s_conn s)) = None /\
+(* The dispatch goroutine leaving on the lifetime context given to NewServerPuncher: neither
+   registry and no queue changes (a Respond still in flight keeps its registration and still owns
+   its deferred removal). *)
+Theorem C20_server_stop : forall H is_stun s s' o,
+  sstep H is_stun s SStop = Ok (s', o) ->
+  s_conn s' = s_conn s /\ s_att s' = s_att s /\ s_live s' = false.
+Proof. exact server_stop. Qed.
+Print Assumptions C20_server_stop.
+
+(* The outcome type covers every way a call of Respond can go: from every state and for all
+   arguments one of the outcomes is enabled (a validation exit, the duplicate-id exit, or
+   registration followed by any of the three exits of the select loop). *)
+Theorem C20_server_respond_outcomes : forall s a w,
+  exists o, respond_can s a o /\ (forall w', o = RoWait w' -> w' = w).
+Proof. exact respond_outcome_total. Qed.
+Print Assumptions C20_server_respond_outcomes.
+
+(* Last sentence, for a ServerPuncher.Respond that got as far as registering (respond_trace =
+   addAttempt id; anything - datagrams, dispatch, other attempts, the puncher's lifetime context
+   being cancelled at any point -; its own receive if it leaves through the event case; the
+   deferred removeAttempt id), from any state, for any arguments and whichever exit of the select
+   it takes: the run never fails; once Respond has returned, id is in neither registry, the conn's
+   table is the table without id, a datagram that decodes under no other registered attempt (a late
+   or retransmitted punch packet of the finished attempt) is handed to the reader unchanged and
+   changes nothing, and the same id can be registered again. *)
+Theorem C20_server_respond_removes : forall H is_stun, (forall x, H x <> []) ->
+  forall s0 a w mid, keys_nodup (d_reg (s_conn s0)) ->
+  exists s outs, srun H is_stun s0 (respond_trace a (RoWait w) mid) = Ok (s, outs) /\
+    att_find (ra_id a) (s_att s) = None /\ reg_find (ra_id a) (d_reg (s_conn s)) = None /\
+    reg_remove (ra_id a) (d_reg (s_conn s)) = d_reg (s_conn s) /\
     (forall p from pick, is_stun p = false ->
-       (forall id' m' ty pad, In (id', m') (d_reg (s_conn s)) -> decode_punch H p m' = Ok (ty, pad) -> id' = id) ->
+       (forall id' m' ty pad, In (id', m') (d_reg (s_conn s)) -> decode_punch H p m' = Ok (ty, pad) -> id' = ra_id a) ->
        sstep H is_stun s (SConn (ARecv p from pick)) = Ok (s, SOConn (OPass p from))) /\
-    (forall m', id <> [] -> is_ok (decode_meta m') = true ->
-       exists s', sstep H is_stun s (SAdd id m') = Ok (s', SOAdd true)).
+    (forall m', ra_id a <> [] -> is_ok (decode_meta m') = true ->
+       exists s', sstep H is_stun s (SAdd (ra_id a) m') = Ok (s', SOAdd true)).
+Proof. exact respond_removes. Qed.
+Print Assumptions C20_server_respond_removes.
+
+(* ... and for EVERY outcome of Respond (each validation exit: empty id, malformed metadata, no
+   compatible peer address, negative timeout, non-positive interval; the duplicate-id exit; success,
+   timeout, cancellation of the caller's context; the puncher's context cancelled at any point, SStop
+   anywhere in `mid` or before the call).  The exits before the registration and the duplicate exit
+   leave the state exactly as it was: nothing is registered and nothing is removed - the attempt of
+   the Respond already in flight under that id stays registered.  For every outcome, if the id was
+   not in use before the call or Respond registered it, then after Respond has returned the id is
+   in neither registry, the conn's table equals the table without it, late packets of the attempt
+   that decode under no other registered attempt reach the reader unchanged, and the id can be
+   registered again. *)
+Theorem C20_server_respond_done : forall H is_stun, (forall x, H x <> []) ->
+  forall s0 a o mid, keys_nodup (d_reg (s_conn s0)) -> respond_can s0 a o ->
+  exists s outs, srun H is_stun s0 (respond_trace a o mid) = Ok (s, outs) /\
+    (match o with RoWait _ => True | _ => s = s0 end) /\
+    ((match o with
+      | RoWait _ => True
+      | _ => att_find (ra_id a) (s_att s0) = None /\ reg_find (ra_id a) (d_reg (s_conn s0)) = None
+      end) ->
+     att_find (ra_id a) (s_att s) = None /\ reg_find (ra_id a) (d_reg (s_conn s)) = None /\
+     reg_remove (ra_id a) (d_reg (s_conn s)) = d_reg (s_conn s) /\
+     (forall p from pick, is_stun p = false ->
+        (forall id' m' ty pad, In (id', m') (d_reg (s_conn s)) -> decode_punch H p m' = Ok (ty, pad) -> id' = ra_id a) ->
+        sstep H is_stun s (SConn (ARecv p from pick)) = Ok (s, SOConn (OPass p from))) /\
+     (forall m', ra_id a <> [] -> is_ok (decode_meta m') = true ->
+        exists s', sstep H is_stun s (SAdd (ra_id a) m') = Ok (s', SOAdd true))).
 Proof. exact respond_done. Qed.
 Print Assumptions C20_server_respond_done.
